@@ -117,6 +117,36 @@ class Enum:
         return "%s::%s%s" % (self.adt.split("::")[-1], self.name, tuple(self.fields) if self.fields else "")
 
 
+class BufView:
+    """a (mutable) slice: a window into a Python list shared by every view / element reference made from it"""
+    __slots__ = ("buf", "off", "n")
+
+    def __init__(self, buf, off=0, n=None):
+        self.buf, self.off = buf, off
+        self.n = len(buf) - off if n is None else n
+
+    def get(self, i):
+        if not 0 <= i < self.n:
+            raise Unsupported("slice index %d out of range %d" % (i, self.n))
+        return self.buf[self.off + i]
+
+    def set(self, i, v):
+        if not 0 <= i < self.n:
+            raise Unsupported("slice index %d out of range %d" % (i, self.n))
+        self.buf[self.off + i] = v
+
+    def sub(self, a, b):
+        if not 0 <= a <= b <= self.n:
+            raise Unsupported("sub-slice %d..%d out of range %d" % (a, b, self.n))
+        return BufView(self.buf, self.off + a, b - a)
+
+    def items(self):
+        return [self.buf[self.off + i] for i in range(self.n)]
+
+    def __repr__(self):
+        return "view%s" % (self.items()[:8],)
+
+
 class ElemRef:
     """a reference to one element of a modelled mutable buffer (a Python list shared by every reference to it)"""
     __slots__ = ("buf", "i")
@@ -190,6 +220,8 @@ class Evaluator:
                 if isinstance(val, ElemRef):
                     val = val.buf[val.i]
                     continue
+                if isinstance(val, BufView):
+                    continue            # a slice reference and the slice it points to are one value here
                 if not isinstance(val, Ref):
                     raise Unsupported("deref of non-reference %r" % (val,))
                 k = val.key
@@ -221,6 +253,9 @@ class Evaluator:
                     raise Unsupported("downcast of %r" % (val,))
             elif isinstance(e, list) and e[0] == "[]":
                 i = fr.env.get(e[1], UNKNOWN)
+                if isinstance(val, BufView) and isinstance(i, int):
+                    val = val.get(i)
+                    continue
                 if isinstance(val, ExtPlace):
                     val = self.ext(val.path)
                 if not isinstance(i, int) or not isinstance(val, (tuple, list)) or not 0 <= i < len(val):
@@ -271,12 +306,29 @@ class Evaluator:
             if isinstance(base, ElemRef) and len(p) == 2:
                 base.buf[base.i] = val
                 return
+            if isinstance(base, BufView) and len(p) == 3 and isinstance(p[2], list) and p[2][0] == "[]":
+                i = fr.env.get(p[2][1], UNKNOWN)
+                if not isinstance(i, int):
+                    raise Unsupported("store at an unknown index")
+                base.set(i, val)
+                return
             if isinstance(base, Ref) and base.key[0] == "local":
                 f2 = self.frames[base.key[1]]
                 self.write_place(f2, [base.key[2]] + [list(x) if isinstance(x, tuple) else x for x in base.key[3:]] + p[2:], val)
                 return
             raise Unsupported("store through external reference")
         cur = fr.env.get(p[0], UNKNOWN)
+        if isinstance(p[1], list) and p[1][0] == "[]" and len(p) == 2:
+            i = fr.env.get(p[1][1], UNKNOWN)
+            if isinstance(cur, BufView) and isinstance(i, int):
+                cur.set(i, val)
+                return
+            if isinstance(cur, tuple) and isinstance(i, int) and 0 <= i < len(cur):
+                lst = list(cur)
+                lst[i] = val
+                fr.env[p[0]] = tuple(lst)
+                return
+            raise Unsupported("indexed store to %r" % (cur,))
         if isinstance(p[1], list) and p[1][0] == "." and len(p) == 2:
             idx = p[1][1]
             if isinstance(cur, tuple):
@@ -321,6 +373,13 @@ class Evaluator:
         except ValueError:
             pass
         if "::" in s and not s.startswith('b"'):
+            import math
+            stdc = {"SQRT_2": math.sqrt(2.0), "FRAC_1_SQRT_2": 1 / math.sqrt(2.0), "PI": math.pi, "FRAC_PI_2": math.pi / 2, "FRAC_PI_4": math.pi / 4,
+                    "TAU": 2 * math.pi, "E": math.e, "LN_2": math.log(2.0), "EPSILON": 2.0 ** -23, "MANTISSA_DIGITS": 24}
+            tail_ = s.split(":: ")[0].strip()
+            if (tail_.startswith("core::f32::") or tail_.startswith("std::f32::") or tail_.startswith("core::f64::") or tail_.startswith("std::f64::")) \
+                    and tail_.split("::")[-1] in stdc:
+                return stdc[tail_.split("::")[-1]]
             v = self.const_item(s.split(":: ")[0].strip())
             if v is not UNKNOWN:
                 return v
@@ -449,6 +508,8 @@ class Evaluator:
                     return Affine.const(0) - v
             if rv[1] == "PtrMetadata":
                 w = self.deref_val(v) if isinstance(v, Ref) else v
+                if isinstance(w, BufView):
+                    return w.n
                 if isinstance(w, (tuple, list)):
                     return len(w)
             raise Unsupported("unop %s on %r" % (rv[1], v))
@@ -692,6 +753,70 @@ class Evaluator:
                 return args[0]          # Range<int> is its own iterator (handled in `next`)
             if isinstance(args[0], tuple) and len(args[0]) == 3 and args[0][0] == "rangei":
                 return self._as_iter(args[0])
+        a0 = self.deref_val(args[0]) if args and isinstance(args[0], Ref) and args[0].key[0] == "local" else (args[0] if args else None)
+        if isinstance(a0, BufView):
+            last = short.split("::")[-1]
+            if last in ("len",) and len(args) == 1:
+                return a0.n
+            if last == "is_empty" and len(args) == 1:
+                return int(a0.n == 0)
+            if last in ("iter", "iter_mut", "into_iter") and len(args) == 1:
+                return PyIter([ElemRef(a0.buf, a0.off + i) for i in range(a0.n)])
+            if last in ("split_at_mut", "split_at") and len(args) == 2 and isinstance(args[1], int):
+                return (a0.sub(0, args[1]), a0.sub(args[1], a0.n))
+            if last == "copy_from_slice" and len(args) == 2:
+                src = self.deref_val(args[1]) if isinstance(args[1], Ref) else args[1]
+                vals = src.items() if isinstance(src, BufView) else (list(src) if isinstance(src, (tuple, list)) else None)
+                if vals is None or len(vals) != a0.n:
+                    raise Unsupported("copy_from_slice of %r" % (src,))
+                for i, v in enumerate(vals):
+                    a0.set(i, v)
+                return ()
+            if last in ("index", "index_mut") and len(args) == 2:
+                r = args[1]
+                tys = " ".join(c.get("args") or [])
+                if isinstance(r, int):
+                    return ElemRef(a0.buf, a0.off + r) if 0 <= r < a0.n else (_ for _ in ()).throw(Unsupported("index out of range"))
+                if isinstance(r, Struct) and all(isinstance(q, int) for q in r.fields):
+                    if "RangeTo<" in tys and len(r.fields) == 1:
+                        return a0.sub(0, r.fields[0])
+                    if "RangeFrom<" in tys and len(r.fields) == 1:
+                        return a0.sub(r.fields[0], a0.n)
+                    if len(r.fields) == 2:
+                        return a0.sub(r.fields[0], r.fields[1])
+            if last in ("chunks_exact_mut", "chunks_exact", "chunks", "chunks_mut") and len(args) == 2 and isinstance(args[1], int) and args[1] > 0:
+                k = args[1]
+                m = a0.n // k if "exact" in last else -(-a0.n // k)
+                return PyIter([a0.sub(i * k, min(a0.n, (i + 1) * k)) for i in range(m)])
+            if last == "swap" and len(args) == 3 and all(isinstance(q, int) for q in args[1:]):
+                x, y = a0.get(args[1]), a0.get(args[2])
+                a0.set(args[1], y)
+                a0.set(args[2], x)
+                return ()
+            if last == "fill" and len(args) == 2:
+                for i in range(a0.n):
+                    a0.set(i, args[1])
+                return ()
+        if short in ("alloc::vec::from_elem",) and len(args) == 2 and isinstance(args[1], int) and 0 <= args[1] < 1 << 20:
+            return BufView([args[0]] * args[1])
+        if sh0 in ("core::ops::deref::DerefMut::deref_mut", "core::ops::deref::Deref::deref") and isinstance(a0, BufView):
+            return a0
+        if sh0 == "core::iter::traits::iterator::Iterator::zip" and len(args) == 2 and isinstance(args[0], PyIter):
+            b = args[1]
+            b = self.deref_val(b) if isinstance(b, Ref) else b
+            if isinstance(b, BufView):
+                bi = [ElemRef(b.buf, b.off + i) for i in range(b.n)]
+            elif isinstance(b, PyIter):
+                bi = b.items[b.pos:]
+            elif isinstance(b, (tuple, list)):
+                store = list(b)
+                bi = [ElemRef(store, i) for i in range(len(store))]
+            else:
+                raise Unsupported("zip with %r" % (b,))
+            ai = args[0].items[args[0].pos:]
+            return PyIter([(x, y) for x, y in zip(ai, bi)])
+        if sh0 == "core::iter::traits::iterator::Iterator::enumerate" and len(args) == 1 and isinstance(args[0], PyIter):
+            return PyIter([(i, x) for i, x in enumerate(args[0].items[args[0].pos:])])
         if sh0 in ("core::iter::traits::collect::IntoIterator::into_iter", "core::slice::<impl [T]>::iter_mut") and len(args) == 1 and isinstance(args[0], list):
             return PyIter([ElemRef(args[0], i) for i in range(len(args[0]))])
         if sh0 in ("core::iter::traits::collect::IntoIterator::into_iter",) and len(args) == 1 and isinstance(args[0], tuple) \
